@@ -214,6 +214,7 @@ def _worker(args):
     try:
         log = open(os.path.join(LOGDIR, "%s-%s.log" % (prop_id, spec["name"])), "a")
         os.dup2(log.fileno(), 2)
+        os.dup2(log.fileno(), 1)   # code under test print()s; results travel through the pool pipe, not stdout
     except Exception:
         pass
     t0 = time.time()
